@@ -11,6 +11,7 @@ CHECK = {
         {"fn": P + "vC36_twoLeaders", "replay": "model-only"},
         {"fn": P + "vC36_waiterCancelled", "replay": "model-only"},
     ],
+    "opts_thorough": {"rounds": 5},
     "opts": {"rounds": 3, "unwind": 3, "unwind_mode": "assume", "feasibility": False, "substitute": SUB, "go_inline": True,
              "globals": {}},
     "stop": list(SUB.keys()),
